@@ -45,7 +45,7 @@ func implCompute1(in RunIn) (any, error) {
 	}
 	rec := test.NewEventRecorder()
 	queue := disruption.NewQueue(w.Client, rec, w.Cluster, w.Clock, w.Prov)
-	c := disruption.MakeConsolidation(w.Clock, w.Cluster, w.Client, w.Prov, w.CP, rec, queue)
+	c := disruption.MakeConsolidation(w.Clock, w.Cluster, w.Client, w.Prov, cpOf(w), rec, queue)
 	m := disruption.NewSingleNodeConsolidation(c)
 	cs, err := candidates(ctx, w, m, queue)
 	if err != nil {
